@@ -90,6 +90,25 @@ func (m *c20m) literal(l lexer.Location, isFloat bool) {
 	}
 }
 
+// intLiteral: a numeral written with decimal digits only has the value those digits spell in base ten
+// (the syntax tree's value is what the checks compare; it must not be trusted blindly)
+func (m *c20m) intLiteral(l lexer.Location, val int64) {
+	txt := m.textAt(l)
+	if txt == "" || len(txt) > 15 {
+		return
+	}
+	var v int64
+	for i := 0; i < len(txt); i++ {
+		if txt[i] < '0' || txt[i] > '9' {
+			return
+		}
+		v = v*10 + int64(txt[i]-'0')
+	}
+	if v != val {
+		m.badLiteral = true
+	}
+}
+
 func (m *c20m) hit(typ int, l lexer.Location) { m.hits = append(m.hits, c20hit{typ, l.StartLine}) }
 
 // structural equality of two expressions (independent of LuaHelper's CompExp)
@@ -268,6 +287,7 @@ func (m *c20m) exp(e ast.Exp) {
 	switch x := e.(type) {
 	case *ast.IntegerExp:
 		m.literal(x.Loc, false)
+		m.intLiteral(x.Loc, x.Val)
 	case *ast.FloatExp:
 		m.literal(x.Loc, true)
 	case *ast.ParensExp:
@@ -390,6 +410,8 @@ var c20templates = []string{
 	/* 24 */ "if \x01 then g = 1 elseif true then g = 2 else g = 3 end\nif true then g = 4 else g = 5 end\nlocal r = t[1] == t[1]\nlocal s = t[\"\x01.\x02\"] == t.\x01.\x02\nlocal u = { [1] = 1, [\"#int1\"] = 2, [\"\x01\"] = 3, \x02 = 4 }\nlocal v = \x01 == -1\x1b5\nlocal w = nil or true\n",
 	// a key given by a variable beside a string key of the same spelling: different keys
 	/* 25 */ "local x = { [\x01] = 1, \x02 = 2, [\"\x03\"] = 3, [\x02] = 4 }\n",
+	// zero-padded decimal numerals (Lua has no octal literals): 010 is ten
+	/* 26 */ "local t = { [010] = 1, [8] = 2, [0\x1f] = 3 }\nif x == 011 then x = 1 elseif x == 9 then x = 2 end\nlocal u = { [010] = 1, [10] = 2 }\nif x == 0010 then x = 1 elseif x == 10 then x = 2 end\n",
 }
 
 func VerifRun_C20() {
@@ -475,7 +497,7 @@ func VerifRun_C20() {
 	m.block(fs[0].FileResult.Block)
 	verifReach("matched")
 	if m.badLiteral {
-		verifViolation("", "a numeric literal is taken for a float although it is spelled as an integer (or the reverse): the float-equality, duplicate-key and repeated-condition checks then fire or stay silent wrongly")
+		verifViolation("", "a numeric literal is taken for a float although it is spelled as an integer (or the reverse), or for another value than its digits spell: the float-equality, duplicate-key and repeated-condition checks then fire or stay silent wrongly")
 	}
 	digest := ""
 	for _, g := range got {
